@@ -61,7 +61,7 @@ Print Assumptions C13_table_driven_is_register.
 
 Theorem C13_compute_crc_is_table_driven : forall bs : bytes, is_bytes bs ->
   Crc.compute_crc bs = to_be32 (Crc32.crc_tab bs).
-Proof. intros bs H. rewrite crc_tab_is_crc by exact H. apply compute_crc_is_mpeg2. Qed.
+Proof. exact compute_crc_is_table_driven. Qed.
 Print Assumptions C13_compute_crc_is_table_driven.
 
 (* linearity of the register in the message, in the form used by the correspondence: the linear-time table
@@ -71,7 +71,7 @@ Print Assumptions C13_compute_crc_is_table_driven.
 Theorem C13_single_bit_all : forall L i j, (i < L)%nat -> (j < 8)%nat ->
   nth (8 * i + j) (Crc32.singles_fast L) 0 = Crc32.crc (Crc32.single L i j) /\
   length (Crc32.singles_fast L) = (8 * L)%nat.
-Proof. intros L i j Hi Hj. split; [apply singles_fast_nth; assumption | apply singles_fast_length]. Qed.
+Proof. exact single_bit_all. Qed.
 Print Assumptions C13_single_bit_all.
 
 (* non-vacuity / sanity of the specification: catalogue check value of CRC-32/MPEG-2 ("123456789" -> 0x0376E6E7),
